@@ -85,54 +85,7 @@ func c11(c *an.Check) {
 		fmt.Sprintf("PubKeyUnmarshallers = PrivKeyUnmarshallers = generator = %v", pub), fmt.Sprintf("PubKeyUnmarshallers=%v PrivKeyUnmarshallers=%v generator accepts %v", pub, priv, genSet))
 	// the registered unmarshallers are the Ed25519 ones of matching kind (a swapped entry would still compile only by type, so this is structural sanity)
 	// ---- protobuf wrappers
-	for _, w := range []struct{ un, msg, reg string }{{"UnmarshalPublicKey", "PublicKey", "PubKeyUnmarshallers"}, {"UnmarshalPrivateKey", "PrivateKey", "PrivKeyUnmarshallers"}} {
-		f := p.Func("crypto", "", w.un)
-		target := f
-		if w.un == "UnmarshalPublicKey" {
-			// delegates to PublicKeyFromProto
-			c.Gate(an.GateSpec{Construct: "crypto.UnmarshalPublicKey success-return", Fn: f, Sink: successReturn, Reqs: []an.Req{
-				an.CallOK("protobuf decodes", an.R("crypto", w.msg, "UnmarshalVT")), an.CallOK("PublicKeyFromProto ok", an.R("crypto", "", "PublicKeyFromProto"))}})
-			target = p.Func("crypto", "", "PublicKeyFromProto")
-		} else {
-			c.Gate(an.GateSpec{Construct: "crypto.UnmarshalPrivateKey success-return", Fn: f, Sink: successReturn, Reqs: []an.Req{
-				an.CallOK("protobuf decodes", an.R("crypto", w.msg, "UnmarshalVT"))}})
-		}
-		// the registry lookup must succeed before the unmarshaller (a func value) is called, with the message's own data
-		if target == nil {
-			c.Undecided("GATE", "crypto "+w.un+" registry dispatch", nil, "unresolved anchor")
-			continue
-		}
-		c.Gate(an.GateSpec{Construct: "crypto " + w.un + " dispatches to a registered unmarshaller", Fn: target,
-			Sink: func(s *an.State, ins ssa.Instruction) bool {
-				call, ok := ins.(*ssa.Call)
-				if !ok || call.Call.IsInvoke() {
-					return false
-				}
-				_, isExtract := call.Call.Value.(*ssa.Extract)
-				return isExtract
-			},
-			Reqs: []an.Req{{Name: "key type found in the registry; data is the message's own", Holds: func(s *an.State, at ssa.Instruction) bool {
-				call := at.(*ssa.Call)
-				e := call.Call.Value.(*ssa.Extract)
-				lk, ok := e.Tuple.(*ssa.Lookup)
-				if !ok || !lk.CommaOk {
-					return false
-				}
-				g := globalLoad(lk.X)
-				if g == nil || g.Name() != w.reg {
-					return false
-				}
-				found := false
-				for _, r := range *lk.Referrers() {
-					if ex, ok := r.(*ssa.Extract); ok && ex.Index == 1 && s.IsTrue(ex) {
-						found = true
-					}
-				}
-				gk := an.ResultCallTo(s.Canon(lk.Index), an.R("crypto", w.msg, "GetKeyType"))
-				gd := an.ResultCallTo(s.Canon(call.Call.Args[0]), an.R("crypto", w.msg, "GetData"))
-				return found && gk != nil && gd != nil && s.Key(gk.Call.Args[0]) == s.Key(gd.Call.Args[0])
-			}}}})
-	}
+	keyUnmarshalDispatchGates(c)
 	// marshal side mirrors: message{KeyType: k.Type(), Data: k.Raw()}
 	for _, w := range []struct{ fn, msg string }{{"PublicKeyToProto", "PublicKey"}, {"MarshalPrivateKey", "PrivateKey"}} {
 		f := p.Func("crypto", "", w.fn)
@@ -280,7 +233,9 @@ func c11(c *an.Check) {
 				fns = append(fns, f)
 			}
 		}
-		nND := c.NilDerefGuard("NILDEREF", "key codec: (value, error) results dereferenced only when err==nil", fns, vtSafeRecv)
+		an.NilProducer = nilProducers
+		nND := c.NilDerefGuard("NILDEREF", "key codec: (value, error) results and pem.Decode's block dereferenced only when known present", fns, nilSafeRecv(p))
+		an.NilProducer = nil
 		c.Note("NILDEREF examined %d (value, error) call sites in %d key codec functions", nND, len(fns))
 		c.Totality(an.PanicSpec{Construct: "key codec totality", Funcs: fns, BCE: bce, Min: 25, Reviewed: map[string]string{
 			"(*crypto.Ed25519PrivateKey).GetPublic: bounds k.k[ed25519.PrivateKeySize - ed25519.PublicKeySize:]": "k.k always holds 64 bytes: the WHO obligation above restricts writers of k to GenerateEd25519Key (std keygen), UnmarshalEd25519PrivateKey (length-switched, decided above) and KeyPairFromStdKey (typed std keys)",
@@ -376,4 +331,60 @@ func privateKeyRawIsCopy(c *an.Check) {
 		}
 	}
 	c.Require(ok, "OWNERSHIP", "crypto.Ed25519PrivateKey.Raw returns a copy of the key bytes", raw, "", 1, "returned slice does not alias the key field", why)
+}
+
+
+// keyUnmarshalDispatchGates: the protobuf key wrappers succeed only past the protobuf decode and call a key-type specific
+// unmarshaller only after a successful registry lookup for the message's own key type, on the message's own data (a
+// known-but-unregistered type must be an error, not a call through a nil function). Shared by C11 and C39.
+func keyUnmarshalDispatchGates(c *an.Check) {
+	p := c.P
+	for _, w := range []struct{ un, msg, reg string }{{"UnmarshalPublicKey", "PublicKey", "PubKeyUnmarshallers"}, {"UnmarshalPrivateKey", "PrivateKey", "PrivKeyUnmarshallers"}} {
+		f := p.Func("crypto", "", w.un)
+		target := f
+		if w.un == "UnmarshalPublicKey" {
+			// delegates to PublicKeyFromProto
+			c.Gate(an.GateSpec{Construct: "crypto.UnmarshalPublicKey success-return", Fn: f, Sink: successReturn, Reqs: []an.Req{
+				an.CallOK("protobuf decodes", an.R("crypto", w.msg, "UnmarshalVT")), an.CallOK("PublicKeyFromProto ok", an.R("crypto", "", "PublicKeyFromProto"))}})
+			target = p.Func("crypto", "", "PublicKeyFromProto")
+		} else {
+			c.Gate(an.GateSpec{Construct: "crypto.UnmarshalPrivateKey success-return", Fn: f, Sink: successReturn, Reqs: []an.Req{
+				an.CallOK("protobuf decodes", an.R("crypto", w.msg, "UnmarshalVT"))}})
+		}
+		// the registry lookup must succeed before the unmarshaller (a func value) is called, with the message's own data
+		if target == nil {
+			c.Undecided("GATE", "crypto "+w.un+" registry dispatch", nil, "unresolved anchor")
+			continue
+		}
+		c.Gate(an.GateSpec{Construct: "crypto " + w.un + " dispatches to a registered unmarshaller", Fn: target,
+			Sink: func(s *an.State, ins ssa.Instruction) bool {
+				call, ok := ins.(*ssa.Call)
+				if !ok || call.Call.IsInvoke() {
+					return false
+				}
+				_, isExtract := call.Call.Value.(*ssa.Extract)
+				return isExtract
+			},
+			Reqs: []an.Req{{Name: "key type found in the registry; data is the message's own", Holds: func(s *an.State, at ssa.Instruction) bool {
+				call := at.(*ssa.Call)
+				e := call.Call.Value.(*ssa.Extract)
+				lk, ok := e.Tuple.(*ssa.Lookup)
+				if !ok || !lk.CommaOk {
+					return false
+				}
+				g := globalLoad(lk.X)
+				if g == nil || g.Name() != w.reg {
+					return false
+				}
+				found := false
+				for _, r := range *lk.Referrers() {
+					if ex, ok := r.(*ssa.Extract); ok && ex.Index == 1 && s.IsTrue(ex) {
+						found = true
+					}
+				}
+				gk := an.ResultCallTo(s.Canon(lk.Index), an.R("crypto", w.msg, "GetKeyType"))
+				gd := an.ResultCallTo(s.Canon(call.Call.Args[0]), an.R("crypto", w.msg, "GetData"))
+				return found && gk != nil && gd != nil && s.Key(gk.Call.Args[0]) == s.Key(gd.Call.Args[0])
+			}}}})
+	}
 }
